@@ -86,6 +86,16 @@ def classify(call: ast.Call) -> Optional[str]:
         k.arg == 'seed' and isinstance(k.value, ast.Constant) and k.value.value is None for k in call.keywords)
     if d in ('np.random.seed', 'random.seed'):
       return 'global-rng'
+    # `seed or None`, `seed if seed else None`: a falsy seed (0) silently becomes "no seed"
+    sarg = call.args[0] if call.args else next((k.value for k in call.keywords if k.arg in ('seed', 'key')), None)
+    def _may_be_none_by_truthiness(e) -> bool:
+      if isinstance(e, ast.BoolOp) and isinstance(e.op, ast.Or):
+        return isinstance(e.values[-1], ast.Constant) and e.values[-1].value is None
+      if isinstance(e, ast.IfExp) and is_none_test(e.test) is None:
+        return any(isinstance(b, ast.Constant) and b.value is None for b in (e.body, e.orelse))
+      return False
+    if sarg is not None and _may_be_none_by_truthiness(sarg):
+      return 'unseeded-rng'
     return 'unseeded-rng' if (unseeded or none_seed) else None
   if d.startswith(GLOBAL_RNG_PREFIX) and d.count('.') >= 1:
     tail = d.split('.')[-1]
